@@ -238,6 +238,7 @@ func NewWorld(t *Trace, mons []Monitor) *World {
 	w.Ref = &Node{Idx: 0, Cfg: DefaultRefCfg(), DB: dbm.NewMemDB()}
 	w.Ref.Cfg.Mempool = t.Knobs.RefMempool
 	w.Ref.AppOpts = appOptsOf(&t.Knobs)
+	w.Ref.Cfg.MinGasPrices = t.Knobs.RefMinGas
 	w.Ref.Open()
 	w.Now = time.Unix(GenesisTS, 0).UTC()
 	w.Hdr = MakeHeader(0, w.Now, nil)
